@@ -4,13 +4,17 @@ import Model.History
 import Model.Select
 import Model.Style
 import Model.Splicer
+import Model.Link
 
 /-
   `ui/ui.go`: `State.Update` and what it calls (`switchTo`, `loadSurroundings`, `subcommand`,
   `openUserInput`, `openInternally`, `openExternally`), over the `Pub` model of items
   (property C07; C16 uses `view`'s layout).  Background work is run to completion inside each
   step: the state after a key is the state "once background loads have settled" (interleavings
-  are C08's subject).  Frames are not part of this model's state.
+  are C08's subject).  The one background activity that is *not* run to completion is the media
+  hook: `openExternally` leaves the state in `opening` mode with the link in the buffer, and the
+  hook's exit is a separate event (`hookDone`), so keys pressed while a hook is running are
+  modelled.  Frames are not part of this model's state.
 -/
 
 namespace Ui
@@ -86,6 +90,28 @@ def parentsOf (w : World) (q : Nat) : T → List T × Option T
     | .post p => let r := Pub.parents w q p; (r.1, r.2.map Item.post)
     | _ => ([], none)
   | _ => ([], none)
+
+/-- `url.Parse` as the link model needs it: the `String()` of the parsed URL. -/
+def libs (w : World) : Obj.Libs Unit Link.Url :=
+  { parseTime := fun _ => none, parseUrl := fun s => (w.parse s).map (·.str) }
+
+/-- The post a media key acts on: the highlighted post, or the post an activity is about. -/
+def unwrapPost : Option T → Option PostM
+  | some (.post p) => some p
+  | some (.activity a) => (match a.target with | .post p => some p | _ => none)
+  | _ => none
+
+/-- `o`: `post.Media()` of the highlighted (unwrapped) post. -/
+def mediaOf (w : World) (cur : Option T) : Option Link.Sel :=
+  match unwrapPost cur with
+  | some p => Link.postMedia (libs w) p.kind p.obj
+  | none => none
+
+/-- `p` / `b`: `actor.ProfilePic()` / `actor.Banner()` of the highlighted actor (no unwrapping). -/
+def pictureOf (w : World) (banner : Bool) (cur : Option T) : Option Link.Sel :=
+  match cur with
+  | some (.actor a) => if banner then Link.actorBanner (libs w) a.obj else Link.actorPfp (libs w) a.obj
+  | _ => none
 
 /-- `Tangible.SelectLink(k)`: the link, if present. -/
 def selectLink : T → Int → Option Str
@@ -245,6 +271,13 @@ def withFeed (s : State) (f : Feed.F T → Feed.F T) : Except Panic State :=
   | .error e => .error e
   | .ok page => .ok (setCurrent s { page with feed := f page.feed })
 
+/-- `openExternally` up to the start of the hook: `opening` mode, the link in the buffer. -/
+def openExternally (s : State) (link : Str) : State := { s with mode := .opening, buffer := link }
+
+/-- The hook exits (successfully or not): back to normal unless the user has moved on. -/
+def hookDone (s : State) : State :=
+  if s.mode = .opening then { s with mode := .normal, buffer := [] } else s
+
 /-- The key switch at the end of `Update` (normal mode, non-digit, non-colon keys). -/
 def keySwitch (w : World) (s : State) (input : Nat) : Except Panic State :=
   if input = 'k'.toNat then (withFeed s Feed.moveUp).bind (loadSurroundings w)
@@ -274,7 +307,15 @@ def keySwitch (w : World) (s : State) (input : Nat) : Except Panic State :=
     | .ok (some (.activity a)) =>
       switchTo w s (.item (match a.actor with | .ok ac => .actor ac | .error _ => .failure))
     | .ok _ => .ok s
-  else .ok s     -- 'o', 'p', 'b' (no media in the generated worlds) and every other byte
+  else if input = 'o'.toNat ∨ input = 'p'.toNat ∨ input = 'b'.toNat then
+    match currentItem s with
+    | .error e => .error e
+    | .ok cur =>
+      let sel := if input = 'o'.toNat then mediaOf w cur else pictureOf w (input = 'b'.toNat) cur
+      match sel with
+      | some x => .ok (openExternally s x.link)
+      | none => .ok s
+  else .ok s     -- every other byte
 
 /-- `State.Update(input)`, settled. -/
 def update (w : World) (s : State) (input : Nat) : Except Panic State :=
@@ -306,7 +347,7 @@ def update (w : World) (s : State) (input : Nat) : Except Panic State :=
         | none => .ok { s with buffer := [], mode := .normal }
         | some l =>
           if input = '.'.toNat then openItem w s (Pub.new w (.str l) none)
-          else .ok { s with buffer := [], mode := .normal }      -- openExternally, hook finished
+          else .ok (openExternally s l)
     else keySwitch w { s with mode := .normal, buffer := [] } input
   else keySwitch w s input
 
@@ -352,5 +393,30 @@ def Inv (s : State) : Prop :=
   (s.mode ≠ .loading → s.hist.index < s.hist.elements.length) ∧
   (s.hist.elements = [] → s.hist.index = 0) ∧
   (s.mode = .selection → s.buffer ≠ [] ∧ ∀ ch ∈ s.buffer, ch.isDigit = true)
+
+end Ui
+
+namespace Ui
+open Pub
+
+/-- Which link, if any, `Update(input)` hands to the media hook from state `s` (the external
+    effect of the step; the state change is `update`'s). -/
+def opens (w : World) (s : State) (input : Nat) : Option Str :=
+  if s.mode = .loading ∨ input = 27 ∨ input = 127 ∨ s.mode = .command ∨ input = ':'.toNat ∨
+     ('0'.toNat ≤ input ∧ input ≤ '9'.toNat) then none
+  else
+    match currentItem s with
+    | .error _ => none
+    | .ok cur =>
+      if s.mode = .selection ∧ (input = '.'.toNat ∨ input = 13) then
+        if input = 13 then
+          match atoi s.buffer, cur with
+          | some n, some x => selectLink x n
+          | _, _ => none
+        else none
+      else if input = 'o'.toNat then (mediaOf w cur).map (·.link)
+      else if input = 'p'.toNat then (pictureOf w false cur).map (·.link)
+      else if input = 'b'.toNat then (pictureOf w true cur).map (·.link)
+      else none
 
 end Ui
